@@ -68,8 +68,8 @@ FloorDiv4(x) == IF x >= 0 THEN x \div 4 ELSE -((-x + 3) \div 4)     \* big.Int.R
 Cmp(a, b) == IF a < b THEN -1 ELSE IF a = b THEN 0 ELSE 1
 Rescale(sign) == IF SignAware THEN 2 * sign ELSE 2
 
-LdFour == 4          \* toy counterparts of FourSquaresSplitter.Ld() = 128 and Params.Lm = 256
-LmT == 8
+LdFour == 5          \* toy counterparts of FourSquaresSplitter.Ld() = 128 and Params.Lm = 256
+LmT == 10
 KLimit == 1000       \* toy counterpart of 2^(Lm + strconv.IntSize)
 
 \* NewProofStructure(index, sign, factor, bound, splitter) -> descriptor; n = splitter.SquareCount()
